@@ -282,6 +282,70 @@ func resolversKeepNothing(c *core.Ctx) {
 		core.Undecidedf("no ResolveAttr method with a context parameter found")
 	}
 	c.Stat("attr_resolvers", n)
+	// the resolver functions themselves (what NewDynamicAttr is given): they are called with the
+	// context of whoever accesses the attribute, and write neither a variable they have captured
+	// nor a package variable (a file object made on first use and kept: the stream of the first
+	// evaluation's OS for every later one)
+	m := 0
+	for _, fn := range repoFns(p) {
+		k := 0
+		for _, b := range fn.Blocks {
+			for _, in := range b.Instrs {
+				call, ok := in.(*ssa.Call)
+				if !ok {
+					continue
+				}
+				cal := call.Call.StaticCallee()
+				if cal == nil || cal.Name() != "NewDynamicAttr" || !core.RepoFunc(cal) {
+					continue
+				}
+				for _, a := range call.Call.Args {
+					var res *ssa.Function
+					if ct, ok := a.(*ssa.ChangeType); ok {
+						a = ct.X
+					}
+					switch x := a.(type) {
+					case *ssa.MakeClosure:
+						res, _ = x.Fn.(*ssa.Function)
+					case *ssa.Function:
+						res = x
+					}
+					if res == nil || res.Blocks == nil {
+						continue
+					}
+					m++
+					k++
+					bad := ""
+					var walk func(f *ssa.Function, d int)
+					walk = func(f *ssa.Function, d int) {
+						for _, b2 := range f.Blocks {
+							for _, in2 := range b2.Instrs {
+								switch x := in2.(type) {
+								case *ssa.Store:
+									root := addrRoot(x.Addr)
+									if root == nil {
+										root = x.Addr
+									}
+									switch root.(type) {
+									case *ssa.FreeVar, *ssa.Global:
+										bad = "writes " + root.Name() + " at " + p.Pos(x.Pos())
+									}
+								case *ssa.MakeClosure:
+									if cf, ok := x.Fn.(*ssa.Function); ok && d < 3 {
+										walk(cf, d+1)
+									}
+								}
+							}
+						}
+					}
+					walk(res, 0)
+					c.Check(bad == "", core.SSAName(fn)+"|resolver-"+sprintf("%d", k)+"|keeps-nothing", p.Pos(call.Pos()),
+						core.SSAName(fn)+" makes a dynamic attribute"+ife(bad == "", " whose resolver writes nothing outside its own frame", " whose resolver "+bad+": what was resolved under the context of one evaluation (its host OS) is kept and handed to every later one that shares the module object (os.stdout of the first evaluation's OS, or of the real process)"))
+				}
+			}
+		}
+	}
+	c.Stat("resolver_functions", m)
 }
 
 // ---------------------------------------------------------------------------
